@@ -106,6 +106,13 @@ type Ctx struct {
 	iterSeq     int
 	mayCallMemo map[string]bool
 	trackedByKey map[string]string
+	loopCallees    map[string][]*ssa.CallCommon
+	loopAllUnknown map[string]bool
+	inCalleeHavoc  bool
+	localObjs      []localObj
+	esc            *escInfo
+	hasPrivate     bool
+	rawHavoc       bool // loop-head havoc: callers restore what the loop body cannot write
 }
 
 // stableCell is a memory cell no callee can write: a non-escaping local or a
@@ -182,6 +189,10 @@ func (c *Ctx) reset() {
 	c.prefix = ""
 	c.allocs = nil
 	c.stable = nil
+	c.localObjs = nil
+	if c.esc == nil {
+		c.esc = newEscInfo()
+	}
 	c.atCallSeen = map[string]int{}
 	c.ifaceLoads = nil
 	c.frameSeq = 0
@@ -337,17 +348,35 @@ func (c *Ctx) havocHeap(st *State, name string) {
 // havocAllCallee is havocAll for a call whose callee is known: ghost call
 // counters of functions the callee cannot reach keep their value.
 func (c *Ctx) havocAllCallee(st *State, cc *ssa.CallCommon) {
+	c.havocAllCallees(st, []*ssa.CallCommon{cc})
+}
+
+// havocAllCallees: as havocAll, for the union of the effects of known callees.
+func (c *Ctx) havocAllCallees(st *State, ccs []*ssa.CallCommon) {
+	if c.scan {
+		for _, k := range c.active {
+			c.loopCallees[k] = append(c.loopCallees[k], ccs...)
+		}
+	}
 	keep := map[string]T{}
 	for _, n := range c.R.heapOrder {
 		if !strings.HasPrefix(n, "Cnt_") && !strings.HasPrefix(n, "Last_") {
 			continue
 		}
 		tracked := c.trackedByKey[strings.TrimPrefix(strings.TrimPrefix(n, "Cnt_"), "Last_")]
-		if tracked != "" && !c.mayReach(cc, tracked) {
+		reach := tracked == ""
+		for _, cc := range ccs {
+			if tracked != "" && c.mayReach(cc, tracked) {
+				reach = true
+			}
+		}
+		if !reach {
 			keep[n] = c.getHeap(st, n)
 		}
 	}
+	c.inCalleeHavoc = true
 	c.havocAll(st)
+	c.inCalleeHavoc = false
 	for n, v := range keep {
 		st.heaps[n] = v
 	}
@@ -357,10 +386,23 @@ func (c *Ctx) havocAll(st *State) {
 	if c.scan {
 		for _, k := range c.active {
 			c.loopAll[k] = true
+			if !c.inCalleeHavoc {
+				c.loopAllUnknown[k] = true
+			}
 		}
 	}
-	snaps := c.snapshotStable(st, nil)
-	defer c.restoreStable(st, snaps)
+	if !c.rawHavoc {
+		snaps := c.snapshotStable(st, nil)
+		before := make(map[string]T, len(st.heaps))
+		for k, v := range st.heaps {
+			before[k] = v
+		}
+		defer func() {
+			c.restoreStable(st, snaps)
+			c.keepLocalObjs(st, before)
+			c.keepPrivate(st, before)
+		}()
+	}
 	names := append([]string(nil), c.R.heapOrder...)
 	for _, n := range names {
 		if n == HAlloc {
@@ -371,8 +413,15 @@ func (c *Ctx) havocAll(st *State) {
 			c.emit("(assert (forall ((a Ref)) (! (=> (select %s a) (select %s a)) :pattern ((select %s a)))))", old.S, nw.S, nw.S)
 			continue
 		}
-		if n == HLockW || n == HLockR || n == HDefW || n == HDefR {
-			continue // callees are lock-balanced unless their contract says otherwise
+		if n == HLockW || n == HLockR || n == HDefW || n == HDefR || n == HPriv {
+			continue // callees are lock-balanced unless their contract says otherwise; they cannot reach private objects
+		}
+		if n == "Clock" {
+			// the ghost clock only moves forward
+			old := c.getHeap(st, n)
+			c.havocHeap(st, n)
+			c.assume(st, le(old, st.heaps[n]))
+			continue
 		}
 		c.havocHeap(st, n)
 	}
@@ -470,6 +519,40 @@ func (c *Ctx) newObj(st *State, hint string) T {
 	c.setHeap(st, HAlloc, Store(al, r, True))
 	c.allocs = append(c.allocs, r)
 	return r
+}
+
+const HPriv = "Priv"
+
+// markPrivate records that object r comes from an allocation site that no
+// callee can reach (escape analysis): its cells survive every callee havoc.
+func (c *Ctx) markPrivate(st *State, r T) {
+	c.R.Heap(HPriv, ArraySort("Ref", "Bool"))
+	c.hasPrivate = true
+	c.setHeap(st, HPriv, Store(c.getHeap(st, HPriv), r, True))
+}
+
+// keepPrivate: after a callee havoc, cells of private objects are unchanged.
+func (c *Ctx) keepPrivate(st *State, before map[string]T) {
+	if !c.hasPrivate {
+		return
+	}
+	priv, ok := before[HPriv]
+	if !ok {
+		return
+	}
+	for _, h := range c.R.heapOrder {
+		old, ok := before[h]
+		cur, ok2 := st.heaps[h]
+		if !ok || !ok2 || old.S == cur.S {
+			continue
+		}
+		switch {
+		case strings.HasPrefix(h, "Cell_"):
+			c.emit("(assert (forall ((a Ref)) (! (=> (select %s (rroot a)) (= (select %s a) (select %s a))) :pattern ((select %s a)))))", priv.S, cur.S, old.S, cur.S)
+		case strings.HasPrefix(h, "MDom_"), strings.HasPrefix(h, "MVal_"):
+			c.emit("(assert (forall ((a Ref)) (! (=> (select %s a) (= (select %s a) (select %s a))) :pattern ((select %s a)))))", priv.S, cur.S, old.S, cur.S)
+		}
+	}
 }
 
 // assumeValid assumes a loaded/received value refers to allocated memory.
